@@ -2,6 +2,6 @@ SPECIFICATION Spec
 CONSTANTS
   MaxT = 3
   MaxGroupT = 2
-  MaxBody = 4
+  MaxBody = 3
 INVARIANT C02_Unroll
 CHECK_DEADLOCK FALSE
